@@ -20,6 +20,9 @@
 (*   leaves the class with no live slot; the free lists read back never    *)
 (*   hold a live slot, hold no slot twice and agree with each other; the   *)
 (*   counters are exact.                                                   *)
+(* In both readings a class is defragmented only when the pass            *)
+(* (DefragAllImproved) chose it, and by one defragClass call per pass:     *)
+(* the per-class state is protected by "one goroutine per class".          *)
 (* A trace rejected under Strict but accepted without is a difference of   *)
 (* policy between model and code (the check reports it as a machinery      *)
 (* problem, not as a violation); rejected by both is a violation.          *)
@@ -33,27 +36,29 @@ CapTrace == [c \in Classes |-> Opts.capseq[c]]
 SlotDataTrace == [c \in Classes |-> Opts.dataseq[c]]
 
 VARIABLES l,      \* next event
-          cbq     \* [Classes -> callbacks seen and not yet matched by the relocation they belong to]
+          cbq,    \* [Classes -> callbacks seen and not yet matched by the relocation they belong to]
+          due     \* DefragAllImproved: [Classes -> 0 | 1 = the pass decided to defragment the class (one goroutine
+                  \* is started for it) | 2 = defragClass is running / has run for it in this pass]
 
-tvars == <<vars, l, cbq>>
+tvars == <<vars, l, cbq, due>>
 
 Ev(e) == l <= Len(Trace) /\ Trace[l].ev = e /\ l' = l + 1
 E == Trace[l]
 
 Globals == <<allocs, privMmaps, sharedMmaps, bytes, cache, pc, ops, defrags>>
-OnlyCls == UNCHANGED <<privs, dfr, cbq>> /\ UNCHANGED Globals
-OnlyClsDfr == UNCHANGED <<privs, cbq>> /\ UNCHANGED Globals
+OnlyCls == UNCHANGED <<privs, dfr, cbq, due>> /\ UNCHANGED Globals
+OnlyClsDfr == UNCHANGED <<privs, cbq, due>> /\ UNCHANGED Globals
 
 Slots(w) == [i \in 1..Len(w) |-> w[i][2]]
 LiveAt(c, a) == {x \in cls[c].live : x.a = a}
 LiveIn(C, p) == {x \in C.live : x.a[1] = p}
 
-TInit == Init /\ l = 1 /\ cbq = [c \in Classes |-> <<>>] /\ TLCSet(1, 1)
+TInit == Init /\ l = 1 /\ cbq = [c \in Classes |-> <<>>] /\ due = [c \in Classes |-> 0] /\ TLCSet(1, 1)
 
 TReset ==
     /\ Ev("Reset")
     /\ cls' = [c \in Classes |-> ClassInit] /\ privs' = {} /\ dfr' = [c \in Classes |-> DfrOff]
-    /\ cbq' = [c \in Classes |-> <<>>]
+    /\ cbq' = [c \in Classes |-> <<>>] /\ due' = [c \in Classes |-> 0]
     /\ UNCHANGED Globals
 
 \* linkSharedPage / newSharedPageLocal
@@ -93,7 +98,7 @@ TFree ==
        IN /\ xs # {}
           /\ LET x == CHOOSE y \in xs : TRUE IN
              IF Strict
-             THEN E.released = 0 /\ FreeSection(c, x) /\ UNCHANGED <<allocs, pc, ops, cbq>>
+             THEN E.released = 0 /\ FreeSection(c, x) /\ UNCHANGED <<allocs, pc, ops, cbq, due>>
              ELSE /\ E.released = 0
                   /\ cls' = [cls EXCEPT ![c].live = Enum(@ \ {x})]
                   /\ OnlyCls
@@ -103,18 +108,41 @@ TPMalloc ==
     /\ E.id > 0 /\ \A x \in privs : x.id # E.id
     /\ \A c \in Classes : E.len > SlotData[c]
     /\ PMallocSection(E.len, E.id)
-    /\ UNCHANGED <<allocs, pc, ops, cbq>>
+    /\ UNCHANGED <<allocs, pc, ops, cbq, due>>
 
 TPFree ==
     /\ Ev("pfree")
     /\ LET xs == {x \in privs : x.id = E.id} IN
        /\ xs # {}
        /\ PFreeSection(CHOOSE x \in xs : TRUE)
-    /\ UNCHANGED <<allocs, pc, ops, cbq>>
+    /\ UNCHANGED <<allocs, pc, ops, cbq, due>>
+
+\* DefragAllImproved: "for every class over the threshold: one goroutine runs defragClass(that class)".
+\* The property's mechanism (per-class state touched by one goroutine at a time) rests on it, so it is
+\* demanded in both readings: a class is defragmented only if the pass chose it, and once per pass.
+TDall ==
+    /\ Ev("dall")
+    /\ due[E.c] = 0 /\ ~dfr[E.c].on
+    /\ Strict => PotFree(cls[E.c], Cap[E.c]) >= TrigMin         \* the threshold itself is policy
+    /\ due' = [due EXCEPT ![E.c] = 1]
+    /\ UNCHANGED <<vars, cbq>>
+
+TDbegin ==
+    /\ Ev("dbegin")
+    /\ due[E.c] = 1                                              \* chosen by the pass, not yet running
+    /\ due' = [due EXCEPT ![E.c] = 2]
+    /\ UNCHANGED <<vars, cbq>>
+
+TDallEnd ==
+    /\ Ev("dallend")
+    /\ \A c \in Classes : due[c] # 1 /\ ~dfr[c].on                 \* every chosen class was served, all are done
+    /\ due' = [c \in Classes |-> 0]
+    /\ UNCHANGED <<vars, cbq>>
 
 \* defragClass: selection made, pages marked, their free slots off the class list
 TDsel ==
     /\ Ev("dsel")
+    /\ due[E.c] = 2
     /\ LET c == E.c
            sel == E.pages
        IN IF Strict
@@ -134,7 +162,7 @@ TCb ==
        /\ dfr[c].on /\ cbq[c] = <<>>
        /\ E.ok
        /\ cbq' = [cbq EXCEPT ![c] = <<[o |-> <<E.p, E.s>>, n |-> <<E.np, E.ns>>]>>]
-    /\ UNCHANGED vars
+    /\ UNCHANGED <<vars, due>>
 
 \* one live slot moved (classMalloc, copy, callback, classFree)
 TReloc ==
@@ -155,7 +183,7 @@ TReloc ==
                   /\ LET x == CHOOSE y \in LiveAt(c, o) : TRUE IN
                      /\ cls' = [cls EXCEPT ![c].live = Enum((@ \ {x}) \cup {[x EXCEPT !.a = n]})]
                      /\ dfr' = [dfr EXCEPT ![c].moved = Append(@, x.id), ![c].cnt = @ + 1]
-    /\ UNCHANGED privs /\ UNCHANGED Globals
+    /\ UNCHANGED <<privs, due>> /\ UNCHANGED Globals
 
 \* an evacuated page leaves the class and is unmapped
 TDunl ==
@@ -180,7 +208,7 @@ TDend ==
           /\ d.i > Len(d.sel)
           /\ Range(d.moved) = d.toMove /\ NoDup(d.moved)
           /\ dfr' = [dfr EXCEPT ![c] = DfrOff]
-    /\ UNCHANGED <<cls, privs, cbq>> /\ UNCHANGED Globals
+    /\ UNCHANGED <<cls, privs, cbq, due>> /\ UNCHANGED Globals
 
 RECURSIVE SumLen(_)
 SumLen(S) == IF S = {} THEN 0 ELSE LET c == CHOOSE q \in S : TRUE IN Len(cls[c].pages) + SumLen(S \ {c})
@@ -191,7 +219,7 @@ TQuiesce ==
     /\ E.allocs = Cardinality(AllLive) + Cardinality(privs)
     /\ E.pm = Cardinality(privs)
     /\ E.sm = SumLen(Classes)
-    /\ UNCHANGED <<vars, cbq>>
+    /\ UNCHANGED <<vars, cbq, due>>
 
 \* the bookkeeping of a class read back from memory at a quiescent point
 StateAgrees(C, o) ==
@@ -230,9 +258,9 @@ StateSound(C, o, k) ==
 TState ==
     /\ Ev("state")
     /\ IF Strict THEN StateAgrees(cls[E.c], E.st) ELSE StateSound(cls[E.c], E.st, Cap[E.c])
-    /\ UNCHANGED <<vars, cbq>>
+    /\ UNCHANGED <<vars, cbq, due>>
 
-TNext == TReset \/ TLink \/ TMalloc \/ TFree \/ TPMalloc \/ TPFree \/ TDsel \/ TCb \/ TReloc \/ TDunl \/ TDend
+TNext == TReset \/ TLink \/ TMalloc \/ TFree \/ TPMalloc \/ TPFree \/ TDall \/ TDbegin \/ TDallEnd \/ TDsel \/ TCb \/ TReloc \/ TDunl \/ TDend
          \/ TQuiesce \/ TState
 
 TSpec == TInit /\ [][TNext]_tvars
@@ -240,7 +268,7 @@ TSpec == TInit /\ [][TNext]_tvars
 -----------------------------------------------------------------------------
 \* every step changes at most the class its event names, so the class-level invariants and action
 \* properties are evaluated for that class only (all classes start from ClassInit, which satisfies them)
-ClsEvents == {"link", "malloc", "free", "dsel", "cb", "reloc", "dunl", "dend", "state"}
+ClsEvents == {"link", "malloc", "free", "dsel", "cb", "reloc", "dunl", "dend", "state", "dall", "dbegin"}
 ClassAt(i) == IF i >= 1 /\ i <= Len(Trace) /\ Trace[i].ev \in ClsEvents THEN Trace[i].c ELSE 0
 PrevClass == ClassAt(l - 1)
 
@@ -248,7 +276,7 @@ TNoOverlap == PrevClass # 0 => NoOverlapC(cls[PrevClass])
 TListsWellFormed == PrevClass # 0 => ListsWellFormedC(cls[PrevClass])
 TCountersExact == PrevClass # 0 => CountersExactC(cls[PrevClass], Cap[PrevClass])
 TCapacityOK == PrevClass # 0 => CapacityOKC(cls[PrevClass], PrevClass)     \* (private mappings: checked in TPMalloc)
-TFreeBranchLive == PrevClass # 0 => \A x \in cls[PrevClass].live : x.a[1] \in DOMAIN cls[PrevClass].hdr => cls[PrevClass].hdr[x.a[1]].used >= 1
+TFreeBranchLive == PrevClass # 0 => FreeBranchLiveC(cls[PrevClass])
 THeadIsPageHead == LET C == cls[IF PrevClass = 0 THEN 1 ELSE PrevClass] IN C.head # Nil /\ C.head \in DOMAIN C.node => C.node[C.head].pip = Nil
 TRelocateAtMostOnce == PrevClass # 0 => RelocateOnceC(dfr[PrevClass])
 
